@@ -168,6 +168,11 @@ func (e *c42Env) both(txs []*types.Transaction, what string) (store.ExecuteResul
 		return resA, fmt.Errorf("%s: block %d gives change hash %s / state root %s on the ledger that pre-executed but %s / %s on its twin; notifications A=%s B=%s",
 			what, blk.Header.Height, resA.Hash.ToHexString(), resA.MerkleRoot.ToHexString(), resB.Hash.ToHexString(), resB.MerkleRoot.ToHexString(), ja, jb)
 	}
+	if e.hookA != nil {
+		// consensus executes a proposal, keeps the result and submits it later: requests served between
+		// the two calls see a ledger with an executed-but-unsubmitted block
+		e.hookA(c42PointBetween, blk.Header.Height)
+	}
 	ledgerstore.VerifCrashHook = e.hookA
 	errA = e.A.LS.SubmitBlock(blk, nil, resA)
 	ledgerstore.VerifCrashHook = nil
@@ -948,14 +953,18 @@ func (e *c42Env) c42CacheRead(t *rapid.T) c42Req {
 	}}
 }
 
-var c42Points = []string{"pre-block-commit", "post-block-commit", "post-event-commit", "post-state-commit"}
+// c42PointBetween is not a hook point of submitBlock: the harness itself calls the hook between
+// ExecuteBlock and SubmitBlock of ledger A (block executed by consensus, not yet submitted).
+const c42PointBetween = "between-execute-and-submit"
+
+var c42Points = []string{c42PointBetween, c42PointBetween, "pre-block-commit", "post-block-commit", "post-event-commit", "post-state-commit"}
 
 // TestC42_PreExecInsideCommitWindow lets pre-execution requests land BETWEEN the store commits of a
 // block: the verif hook of submitBlock runs them synchronously at a drawn point of ledger A's commit
 // (harness-owned schedule, no real concurrency). The twin B commits the same block undisturbed.
 func TestC42_PreExecInsideCommitWindow(t *testing.T) {
 	ev := harn.For("C42")
-	ev.Rule("commit window: twin ledgers as above; 3-7 real blocks (0-4 txs: ONG transfer, NeoVM put, EVM storing call, EVM transfer); while ledger A commits each block, at a DRAWN point of submitBlock (pre-block-commit = all three batches staged, post-block-commit, post-event-commit, post-state-commit = before the height advances) 1-3 generated requests run inside the commit through the interfaces that do not take the block-saving lock: PreExecuteContract, PreExecuteContractWithParam, non-atomic PreExecuteContractBatch, PreExecuteEIP155, PreExecuteEip155Tx, TraceEip155Tx, GetCacheDB + reads (the ATOMIC PreExecuteContractBatch takes the saving lock, cannot run there and is never generated in this test); B commits the same block with no request. Nothing is asserted about the RESULT of a request inside the window (it may see the old or the partially committed state); after each block: state root, tip and the live reads of A and B equal; afterwards 1-2 undisturbed blocks must be accepted identically and the closed data directories must have identical logical content. One case per request; non-trivial = request that succeeded with a notification or gas above the base while a block with >= 1 tx was between its commits; distinct by point and request")
+	ev.Rule("commit window: twin ledgers as above; 3-7 real blocks (0-4 txs: ONG transfer, NeoVM put, EVM storing call, EVM transfer); while ledger A commits each block, at a DRAWN point — between ExecuteBlock and SubmitBlock (block executed, result kept, not yet submitted: the consensus sequence), or inside submitBlock (pre-block-commit = all three batches staged, post-block-commit, post-event-commit, post-state-commit = before the height advances) 1-3 generated requests run inside the commit through the interfaces that do not take the block-saving lock: PreExecuteContract, PreExecuteContractWithParam, non-atomic PreExecuteContractBatch, PreExecuteEIP155, PreExecuteEip155Tx, TraceEip155Tx, GetCacheDB + reads (the ATOMIC PreExecuteContractBatch takes the saving lock, cannot run there and is never generated in this test); B commits the same block with no request. Nothing is asserted about the RESULT of a request inside the window (it may see the old or the partially committed state); after each block: state root, tip and the live reads of A and B equal; afterwards 1-2 undisturbed blocks must be accepted identically and the closed data directories must have identical logical content. One case per request; non-trivial = request that succeeded with a notification or gas above the base while a block with >= 1 tx was between its commits; distinct by point and request")
 	harn.Check(t, 20, 600, func(t *rapid.T) {
 		extra := rapid.IntRange(0, 2).Draw(t, "extra")
 		amts := make([]uint64, extra)
